@@ -22,7 +22,8 @@ func init() {
 			"R4 one codec: every Content-Range the client sends and every Range the server answers for uploads is built by ocirequest.RangeString, and both sides parse with ocirequest.ParseRange; " +
 			"R5 client bookkeeping: in blobWriter.flush the range end, the request's ContentLength and the amount added to `flushed` are the same quantity, `flushed` advances only after the request succeeded, and in Write `size` is advanced only where no failure return is reachable any more. " +
 			"R5b the flush request's ContentLength is set to len(chunk)+len(buf) before the Content-Range is built; R6 a refused Buffer.Write assigns no field of the upload on its path. " +
-			"R5c every path of flush to the request sets Content-Range; R7 the unifier creates its members' chunked-upload writers with the caller's own context.",
+			"R5c every path of flush to the request sets Content-Range; R7 the unifier creates its members' chunked-upload writers with the caller's own context. " +
+			"R8 the HTTP client's blobWriter.Write assigns no field of the writer on a path to an error return (what was refused is not silently kept in the buffer).",
 		NotDecided: "that the concatenation of the written chunks equals the committed content, and the arithmetic of offsets across arbitrary partitions, are value-level and not decided (in particular the Content-Range codec is not its own inverse for a one-byte body, see C01's note).",
 		Technique:  "static analysis: disjunctive path facts, must-pass-through, format-verb provenance, term equality of bookkeeping quantities",
 	})
@@ -138,6 +139,7 @@ func runC04(c *core.Ctx) {
 		c.Fail("C04.R1", "Buffer.Write/mismatch-is-range-invalid", wr.Pos(), "Buffer.Write has no return on the offset-mismatch branch: mismatching data is not refused")
 	}
 	c04ResumeRegistersOffset(c)
+	failedMethodLeavesState(c, "C04.R8", "ociclient", "blobWriter", "Write")
 	c04ServerOffsets(c)
 	m := loadErrModel(c)
 	c.Check(m.StatusOf["ErrRangeInvalid"] == 416, "C04.R1", "status/RANGE_INVALID", 0, "RANGE_INVALID -> 416", "ErrRangeInvalid is not answered with HTTP 416")
